@@ -17,10 +17,13 @@ Bi(k, l, r) == [k |-> k, l |-> l, r |-> r]
 TLeaves == {T("a"), T("b"), T("c")}
 Leaves == TLeaves \cup {S}
 ArOps == {"add", "sub", "mul", "min", "max"}
-HasTensor(e) == CASE e.k = "t" -> TRUE [] e.k = "s" -> FALSE [] e.k \in {"neg", "abs", "sqrt", "not"} -> TRUE
+HasTensor(e) == CASE e.k = "t" -> TRUE [] e.k \in {"s", "k"} -> FALSE [] e.k \in {"neg", "abs", "sqrt", "not"} -> TRUE
                   [] OTHER -> TRUE           \* binary nodes are only built with at least one tensor side (below)
 \* exact-division and sqrt atoms
-Atoms == {Un("sqrt", T("q")), Bi("div", T("m"), S), Bi("div", Bi("mul", T("a"), T("d")), T("d")), Bi("div", Bi("mul", T("b"), S), S)}
+K(v) == [k |-> "k", v |-> v]                    \* literal constant
+\* (the last three: a SCALAR divided by a tensor -- 12, 12 s and -6 s are multiples of every value 1, 2, 3 of d's elements up to sign)
+Atoms == {Un("sqrt", T("q")), Bi("div", T("m"), S), Bi("div", Bi("mul", T("a"), T("d")), T("d")), Bi("div", Bi("mul", T("b"), S), S),
+          Bi("div", K(12), T("d")), Bi("div", Bi("mul", K(12), S), T("d")), Bi("div", Bi("mul", K(0 - 6), S), Un("neg", T("d")))}
 A1 == {Un(k, x) : k \in {"neg", "abs"}, x \in TLeaves}
       \cup ({Bi(k, l, r) : k \in ArOps, l \in Leaves, r \in Leaves} \ {Bi(k, S, S) : k \in ArOps})
       \cup Atoms
@@ -36,12 +39,13 @@ Types == {"f64", "f32", "i32", "i64"}
 RECURSIVE TH(_)
 TH(e) == CASE e.k = "t" -> (CHOOSE i \in 1..6 : <<"a", "b", "c", "q", "d", "m">>[i] = e.n)
            [] e.k = "s" -> 7
+           [] e.k = "k" -> 8 + (e.v + 50)
            [] e.k \in {"neg", "abs", "sqrt", "not"} -> (TH(e.x) * 31 + 11) % 100003
            [] OTHER -> (TH(e.l) * 131 + TH(e.r) * 17 + (CHOOSE i \in 1..15 : <<"add","sub","mul","div","min","max","lt","le","gt","ge","eq","ne","and","or","x">>[i] = e.k)) % 100003
 HK(e, a, b) == (TH(e) * 7 + a * 13 + b * 29 + Seed) % 9973
 Aops == <<"set", "add", "sub", "mul">>
 RECURSIVE HasSqrt(_)
-HasSqrt(e) == CASE e.k \in {"t", "s"} -> FALSE [] e.k = "sqrt" -> TRUE [] e.k \in {"neg", "abs", "not"} -> HasSqrt(e.x)
+HasSqrt(e) == CASE e.k \in {"t", "s", "k"} -> FALSE [] e.k = "sqrt" -> TRUE [] e.k \in {"neg", "abs", "not"} -> HasSqrt(e.x)
                 [] OTHER -> HasSqrt(e.l) \/ HasSqrt(e.r)                  \* sqrt is a floating-point function: float/double cases only
 ArCases(trees, q) ==
     { [tree |-> e, aop |-> Aops[ai], N |-> Sizes[si], T |-> t, bool |-> 0] :
@@ -60,7 +64,7 @@ TableCases == { [mode |-> "table", op |-> o, T |-> t, N |-> n] : o \in FltOps, t
 KeepTable(x) == (x.T \in {"i32", "i64"} => x.op \in IntOps) /\ ((Len(x.op) * 7 + x.N + TI(x.T) * 3 + Seed) % TableQuota = 0)
 \* complex element type: ring operations only (unary minus, + - *), scalar on either side
 RECURSIVE RingTree(_)
-RingTree(e) == CASE e.k = "t" -> e.n \in {"a", "b", "c"} [] e.k = "s" -> TRUE [] e.k = "neg" -> RingTree(e.x)
+RingTree(e) == CASE e.k = "t" -> e.n \in {"a", "b", "c"} [] e.k \in {"s", "k"} -> TRUE [] e.k = "neg" -> RingTree(e.x)
                  [] e.k \in {"add", "sub", "mul"} -> RingTree(e.l) /\ RingTree(e.r) [] OTHER -> FALSE
 CxCases == { [tree |-> e, aop |-> Aops[ai], N |-> n, T |-> "c64", bool |-> 0] :
                e \in {t \in A1 \cup (IF Depth2 = 1 THEN A2 ELSE {}) : RingTree(t)}, ai \in 1..4, n \in {1, 2, 3, 4, 5, 8, 9} }
